@@ -370,6 +370,27 @@ def translateNamed (cfg : Cfg) (ctx : Ctx) (name : Str) : Res :=
   | some t => translate cfg ctx defaultFuel t
   | none => .error .value
 
+/-! ### the entry points as CALLS: `translate(template, **context)` / `synthesize(sequence, **context)`
+
+  The bindings are the keyword arguments of the call.  Python's call protocol stands in front of the body: a
+  keyword that names a parameter which the caller has already filled positionally (`self`, `template`; for
+  `synthesize` also `sequence`, and `template` again when it forwards `**context`) is a `TypeError` raised before
+  any rendering happens; EVERY other keyword — whatever it is called — lands in `context` unchanged.  Which names
+  are positionally filled is an environment fact (`reserved`, probed by the harness on the tree under test). -/
+
+def tyErr : Str := [84, 121, 112, 101, 69, 114, 114, 111, 114]      -- "TypeError"
+
+def callEntry (reserved : List Str) (ctx : Ctx) (body : Ctx → Res) : Res :=
+  if ctx.any (fun p => reserved.contains p.1) then .error (.other tyErr) else body ctx
+
+/-- `synthesize(sequence, **ctx)` as a call -/
+def synthesizeCall (cfg : Cfg) (reserved : List Str) (ctx : Ctx) (s : Str) : Res :=
+  callEntry reserved ctx (fun c => translate cfg c defaultFuel s)
+
+/-- `translate(name, **ctx)` as a call -/
+def translateCall (cfg : Cfg) (reserved : List Str) (ctx : Ctx) (name : Str) : Res :=
+  callEntry reserved ctx (fun c => translateNamed cfg c name)
+
 /-- ASCII `\w` and `\s` (the driver extends them with the non-ASCII code points the harness reports) -/
 def asciiWord (c : Nat) : Bool :=
   (48 ≤ c && c ≤ 57) || (65 ≤ c && c ≤ 90) || (97 ≤ c && c ≤ 122) || c == 95
